@@ -20,7 +20,11 @@ type c07act struct {
 	kind string // short class used in signatures
 }
 
-var c07Names = map[string]string{"#a": "a"}
+// c07Names is the first binding of the name placeholders; c07Names2 gives the same placeholders
+// other meanings (the same expression TEXT then addresses other attributes and members: an
+// interpreter that keeps anything per text between calls shows here).
+var c07Names = map[string]string{"#a": "a", "#k": "x", "#m": "m"}
+var c07Names2 = map[string]string{"#a": "b", "#k": "y", "#m": "u"}
 
 var c07Values = map[string]val.V{
 	":s": val.S("str"), ":n": val.N("5"), ":l": val.L(val.S("e1"), val.N("2")), ":m": val.M("k", val.S("v")),
@@ -43,19 +47,19 @@ func c07Item() val.Item {
 	}
 }
 
-func c07Actions() []c07act {
+func c07Actions(names map[string]string) []c07act {
 	var out []c07act
 	top := func(p string) string {
 		t := p
 		if i := strings.IndexAny(t, ".["); i >= 0 {
 			t = t[:i]
 		}
-		if r, ok := c07Names[t]; ok {
+		if r, ok := names[t]; ok {
 			return r
 		}
 		return t
 	}
-	targets := []string{"a", "b", "m.x", "m.z", "l[0]", "l[1]", "l[9]", "nw", "#a", "nope.x", "b.x", "b[0]", "u.k[1].n", "ss"}
+	targets := []string{"a", "b", "m.x", "m.z", "l[0]", "l[1]", "l[9]", "nw", "#a", "nope.x", "b.x", "b[0]", "u.k[1].n", "ss", "m.#k", "#m.#k"}
 	rhss := []struct {
 		r    rx.Rhs
 		kind string
@@ -74,7 +78,7 @@ func c07Actions() []c07act {
 			out = append(out, c07act{rx.Set(t, r.r), top(t), "SET(" + r.kind + ")"})
 		}
 	}
-	for _, t := range []string{"a", "b", "m.x", "m.nokey", "l[0]", "l[1]", "l[2]", "l[9]", "nope", "#a", "u.k", "u.k[0]", "u.k[1]", "u.k[1].n", "u.k[1].nokey", "u.k[9].n", "nope.x", "ss"} {
+	for _, t := range []string{"a", "b", "m.x", "m.nokey", "l[0]", "l[1]", "l[2]", "l[9]", "nope", "#a", "u.k", "u.k[0]", "u.k[1]", "u.k[1].n", "u.k[1].nokey", "u.k[9].n", "nope.x", "ss", "m.#k", "#m.#k"} {
 		out = append(out, c07act{rx.Remove(t), top(t), "REMOVE"})
 	}
 	for _, pv := range [][2]string{{"a", ":n"}, {"a", ":s"}, {"nw", ":n"}, {"nw", ":ss"}, {"nw", ":s"}, {"ss", ":ss"}, {"ss", ":ns"}, {"ns", ":ns"}, {"bs", ":bs"}, {"b", ":n"}, {"#a", ":n"}, {"ss", ":s"}} {
@@ -88,12 +92,12 @@ func c07Actions() []c07act {
 
 // usedValues returns the subset of the value bindings the update mentions (the client API
 // rejects unused ones).
-func usedBindings(u *rx.Update) (map[string]string, map[string]val.V) {
+func usedBindings(u *rx.Update, binding map[string]string) (map[string]string, map[string]val.V) {
 	ns, vs := map[string]bool{}, map[string]bool{}
 	u.Placeholders(ns, vs)
 	names := map[string]string{}
 	for n := range ns {
-		names[n] = c07Names[n]
+		names[n] = binding[n]
 	}
 	values := map[string]val.V{}
 	for v := range vs {
@@ -163,16 +167,16 @@ func c07Check(run *ev.Run, via string, u *rx.Update, kind string, before val.Ite
 				return
 			}
 		}
-		run.Report(fmt.Sprintf("C07|%s|%s|wrong-result|%s", via, kind, c07DiffClass(accepted[0], res.item, u)), fmt.Sprintf("%q on %s: want %s got %s", expr, before.CanonText(), accepted[0].CanonText(), res.item.CanonText()), rep)
+		run.Report(fmt.Sprintf("C07|%s|%s|wrong-result|%s", via, kind, c07DiffClass(accepted[0], res.item, u, names)), fmt.Sprintf("%q on %s: want %s got %s", expr, before.CanonText(), accepted[0].CanonText(), res.item.CanonText()), rep)
 	}
 }
 
 // c07DiffClass says whether the difference is in a targeted attribute or in the frame.
-func c07DiffClass(want, got val.Item, u *rx.Update) string {
+func c07DiffClass(want, got val.Item, u *rx.Update, names map[string]string) string {
 	targeted := map[string]bool{}
 	for _, a := range u.Actions {
 		n := a.Path[0].Name
-		if r, ok := c07Names[n]; ok {
+		if r, ok := names[n]; ok {
 			n = r
 		}
 		targeted[n] = true
@@ -216,21 +220,41 @@ func kindOf(acts ...c07act) string {
 // C07: update expressions apply exactly their actions and nothing else.
 func C07(run *ev.Run, tier string) map[string]interface{} {
 	thorough := tier == "thorough"
-	acts := c07Actions()
+	acts := c07Actions(c07Names)
 	type prog struct {
-		u    *rx.Update
-		kind string
+		u       *rx.Update
+		kind    string
+		binding map[string]string
 	}
 	var progs []prog
 	for _, a := range acts {
-		progs = append(progs, prog{rx.U(a.a), kindOf(a)})
+		progs = append(progs, prog{rx.U(a.a), kindOf(a), c07Names})
 	}
 	for _, a := range acts {
 		for _, b := range acts {
 			if a.top == b.top {
 				continue // overlapping targets are outside the alphabet
 			}
-			progs = append(progs, prog{rx.U(a.a, b.a), kindOf(a, b)})
+			progs = append(progs, prog{rx.U(a.a, b.a), kindOf(a, b), c07Names})
+		}
+	}
+	// the programs that use name placeholders once more under the second binding of the names
+	// (single actions, and pairs with every action on another attribute)
+	{
+		acts2 := c07Actions(c07Names2)
+		usesName := func(a c07act) bool { return strings.Contains(rx.U(a.a).String(), "#") }
+		for _, a := range acts2 {
+			if !usesName(a) {
+				continue
+			}
+			progs = append(progs, prog{rx.U(a.a), kindOf(a) + "|second-name-binding", c07Names2})
+			for _, b := range acts2 {
+				if a.top == b.top || usesName(b) {
+					continue
+				}
+				progs = append(progs, prog{rx.U(a.a, b.a), kindOf(a, b) + "|second-name-binding", c07Names2})
+				progs = append(progs, prog{rx.U(b.a, a.a), kindOf(b, a) + "|second-name-binding", c07Names2})
+			}
 		}
 	}
 	if thorough {
@@ -250,7 +274,7 @@ func C07(run *ev.Run, tier string) map[string]interface{} {
 					if a.top == b.top || a.top == c.top || b.top == c.top {
 						continue
 					}
-					progs = append(progs, prog{rx.U(a.a, b.a, c.a), kindOf(a, b, c)})
+					progs = append(progs, prog{rx.U(a.a, b.a, c.a), kindOf(a, b, c), c07Names})
 				}
 			}
 		}
@@ -283,7 +307,7 @@ func C07(run *ev.Run, tier string) map[string]interface{} {
 		for _, it := range items {
 			it := it
 			ch <- func() {
-				names, values := usedBindings(p.u)
+				names, values := usedBindings(p.u, p.binding)
 				expr := p.u.String()
 				ev.Breadcrumb("Language.Update " + expr + " on item " + it.name)
 				out, after := itp.Update(expr, it.it, names, values)
@@ -302,6 +326,14 @@ func C07(run *ev.Run, tier string) map[string]interface{} {
 	}
 	// the same single- and two-action programs through the client API (SDK v2 and v1): existing
 	// item and absent item (the update creates it from the key)
+	// long-lived clients (one pool per SDK adapter): every client-level program runs on a fresh
+	// client and once more on a client that has applied every earlier program of its worker; the
+	// two must agree
+	warmClients := map[string]chan drv.Driver{}
+	for _, d := range Drivers {
+		warmClients[d.Name] = make(chan drv.Driver, 32)
+	}
+	var warmRuns int64
 	for _, p := range progs {
 		if len(p.u.Actions) > 2 || (len(p.u.Actions) == 2 && !thorough && (p.kind != "SET(path)+SET(path)" && !strings.Contains(p.kind, "REMOVE"))) {
 			continue
@@ -312,7 +344,7 @@ func C07(run *ev.Run, tier string) map[string]interface{} {
 			for _, existing := range []bool{true, false} {
 				existing := existing
 				ch <- func() {
-					names, values := usedBindings(p.u)
+					names, values := usedBindings(p.u, p.binding)
 					if len(names) == 0 {
 						names = nil
 					}
@@ -352,8 +384,34 @@ func C07(run *ev.Run, tier string) map[string]interface{} {
 					mu.Lock()
 					evals++
 					hist["client-"+d.Name+":"+res.o]++
+					warmRuns++
 					mu.Unlock()
 					c07Check(run, "client-"+d.Name, p.u, p.kind, before, res, names, values)
+					// once more on a long-lived client
+					var wc drv.Driver
+					select {
+					case wc = <-warmClients[d.Name]:
+					default:
+						wc = d.New()
+						wc.Do(drv.Op{K: drv.KCreate, Table: "tab", Cfg: &drv.TableCfg{Hash: "h", HashT: "S", Billing: "PAY_PER_REQUEST"}})
+					}
+					if existing {
+						wc.Do(drv.Op{K: drv.KPut, Table: "tab", Item: before})
+					} else {
+						wc.Do(drv.Op{K: drv.KDel, Table: "tab", Key: val.Item{"h": val.S("k")}})
+					}
+					r2 := wc.Do(drv.Op{K: drv.KUpd, Table: "tab", Key: val.Item{"h": val.S("k")}, Upd: p.u, Names: names, Values: values})
+					g2 := wc.Do(drv.Op{K: drv.KGet, Table: "tab", Key: val.Item{"h": val.S("k")}})
+					if r2.Err != r.Err || !val.ItemEqual(g2.Item, g.Item) {
+						run.Report(fmt.Sprintf("C07|client-%s|%s|history-dependent", d.Name, p.kind), fmt.Sprintf("%q names %v: a fresh client answers %s and stores %s; a client that applied other updates before answers %s and stores %s", p.u.String(), names, r.Short(), g.Item.CanonText(), r2.Short(), g2.Item.CanonText()),
+							map[string]interface{}{"via": "client-" + d.Name, "expression": p.u.String(), "item": before, "names": names, "values": values})
+					}
+					if r2.Err != drv.EPanicRT {
+						select {
+						case warmClients[d.Name] <- wc:
+						default:
+						}
+					}
 				}
 			}
 		}
@@ -367,12 +425,13 @@ func C07(run *ev.Run, tier string) map[string]interface{} {
 		"evaluations":         evals,
 		"distinct_nontrivial": len(distinct),
 		"programs":            len(progs),
-		"single_actions":      len(acts),
-		"rule":                "every update program of one action, of two actions on different top-level attributes (all ordered pairs; thorough: three actions over one representative per kind and target) from SET (values, paths, +, -, if_not_exists, list_append, nested and appended targets, aliases), REMOVE, ADD, DELETE; applied to a typed item with nested documents, sets and an untouched frame and to a key-only item, through interpreter.Language.Update and through UpdateItem of both SDK clients on existing and absent keys; a program is distinct by (text, item)",
-		"oracle":              "reference update semantics: right-hand sides read the pre-update item, targets receive the value, REMOVE deletes (list indexes refer to original positions), ADD/DELETE per type, every untargeted attribute structurally identical, invalid programs rejected with the item unchanged; a panic is never accepted",
-		"samples":             samples,
-		"exhaustive":          true,
-		"outcome_histogram":   hist,
+		"client_programs_repeated_on_a_long_lived_client": warmRuns,
+		"single_actions":    len(acts),
+		"rule":              "every update program of one action, of two actions on different top-level attributes (all ordered pairs; thorough: three actions over one representative per kind and target) from SET (values, paths, +, -, if_not_exists, list_append, nested and appended targets, aliases), REMOVE, ADD, DELETE; applied to a typed item with nested documents, sets and an untouched frame and to a key-only item, through interpreter.Language.Update and through UpdateItem of both SDK clients on existing and absent keys; a program is distinct by (text, item); programs with name placeholders also under a second binding of the names; every evaluation is repeated on a long-lived interpreter / client that has served the earlier programs and must agree with the fresh one",
+		"oracle":            "reference update semantics: right-hand sides read the pre-update item, targets receive the value, REMOVE deletes (list indexes refer to original positions), ADD/DELETE per type, every untargeted attribute structurally identical, invalid programs rejected with the item unchanged; a panic is never accepted",
+		"samples":           samples,
+		"exhaustive":        true,
+		"outcome_histogram": hist,
 	}
 }
 
